@@ -347,7 +347,7 @@ class SymEx:
                     if self.call_model:
                         val = self.call_model(nm, args, t, path)
                     if val is None:
-                        val = default_call_model(nm, args, bi, c)
+                        val = default_call_model(nm, args, (bi, path.visits.get(bi, 1)) if path.visits.get(bi, 1) > 1 else bi, c)
                     path.calls.append((nm, args, bi))
                     self.write_place(path, t['dest'], val, bi)
                     if t.get('target') is None:
